@@ -215,6 +215,21 @@ class Ctx:
         exec(compile(src, f"<{self.modname}>", "exec", dont_inherit=True), self.ns)
 
 
+def flat_members(d):
+    """Members of a union-ish descriptor after typing's flattening, in written order, None last for Optional."""
+    out = []
+    for m in (d[1:] if d[0] in ("union", "pep604") else (d[1], ("leaf", "none"))):
+        if m[0] in ("union", "pep604", "opt", "optpipe"):
+            out.extend(flat_members(m))
+        else:
+            out.append(m)
+    res = []
+    for m in out:
+        if m not in res:
+            res.append(m)
+    return res
+
+
 def is_mutable_default(v):
     return isinstance(v, (list, dict, set, bytearray, collections.deque, collections.ChainMap)) or (
         dataclasses.is_dataclass(v) and not isinstance(v, type)) or type(v).__hash__ is None
@@ -285,17 +300,21 @@ def _hint(d, ctx):
         return types.MappingProxyType[hint(d[1], ctx), hint(d[2], ctx)]
     if k == "counter":
         return T.Counter[hint(d[1], ctx)]
+    if k in ("opt", "union", "optpipe", "pep604") and any(c[0] in ("opt", "union", "optpipe", "pep604") for c in d[1:]):
+        # typing flattens nested unions, and its cache returns whichever argument order of an equal inner
+        # union was created first in this process; build the flat form so that the order is the written one
+        ms = [hint(m, ctx) for m in flat_members(d)]
+        if k in ("opt", "union"):
+            return T.Union[tuple(ms)]
+        return _pipe(ms)
     if k == "opt":
         return T.Optional[hint(d[1], ctx)]
     if k == "optpipe":
-        return hint(d[1], ctx) | None
+        return _pipe([hint(d[1], ctx), type(None)])
     if k == "union":
         return T.Union[tuple(hint(x, ctx) for x in d[1:])]
     if k == "pep604":
-        h = hint(d[1], ctx)
-        for x in d[2:]:
-            h = h | hint(x, ctx)
-        return h
+        return _pipe([hint(x, ctx) for x in d[1:]])
     if k == "annotated":
         return T.Annotated[hint(d[1], ctx), "meta"]
     if k == "final":
@@ -324,6 +343,18 @@ def _hint(d, ctx):
     if k in ("dcgen", "dcgeninh", "dcinh", "dcself", "dcfwd"):
         return _mk_special(d, ctx)
     raise ValueError(f"unknown descriptor {d!r}")
+
+
+def _pipe(ms):
+    """a | b | c. With classes only this is a types.UnionType in written order. As soon as a typing
+    generic takes part, `|` builds nested typing.Union objects whose argument order depends on typing's
+    cache history, so the (equivalent) flat typing.Union is built directly."""
+    if all(isinstance(m, type) for m in ms):
+        h = ms[0]
+        for x in ms[1:]:
+            h = h | x
+        return h
+    return typing.Union[tuple(ms)]
 
 
 def _default_src(ctx, d, v):
